@@ -57,6 +57,19 @@ def run(ctx):
             try:
                 got = np.atleast_1d(fn(rate, y.copy(), h))
                 gkw = np.atleast_1d(fn(rate_kw, y.copy(), h, M=A, shift=0.0))
+                # the caller's vector is left as it was (the same y is stepped again below), and whole-number y may come as integers or a list
+                ysame = y.copy()
+                g1_ = np.atleast_1d(fn(rate, ysame, h))
+                g2_ = np.atleast_1d(fn(rate, ysame, h))
+                if not np.array_equal(ysame, y) or not np.array_equal(g1_, got) or not np.array_equal(g2_, got):
+                    ctx.violation('%s step modifies the vector passed to it (a second step from the same y differs)' % name,
+                                  'A=%s y=%s h=%s first %s second %s' % (c['a'], c['y'], h, g1_.tolist(), g2_.tolist()), c)
+                if np.array_equal(y, np.rint(y)):
+                    for nm_, yi in (('integer array', np.rint(y).astype(np.int64)), ('list of ints', [int(v) for v in np.rint(y)])):
+                        gi_ = np.atleast_1d(np.asarray(fn(rate, yi, h), dtype=float))
+                        if not np.allclose(gi_, got, rtol=1e-13, atol=1e-13):
+                            ctx.violation('%s step from a vector given as %s is not the step from the same float vector' % (name, nm_.split()[0]),
+                                          'A=%s y=%s h=%s got %s expected %s' % (c['a'], c['y'], h, gi_.tolist(), got.tolist()), c)
                 if not np.array_equal(got, gkw):
                     ctx.violation('%s step differs when the rate law receives its parameters through the keyword pass-through' % name,
                                   'A=%s y=%s h=%s got %s and %s' % (c['a'], c['y'], h, got.tolist(), gkw.tolist()), c)
